@@ -388,7 +388,7 @@ def detCollect (name : Obj) (keys : List Key) (d : DetSt) (index : Option Nat) (
   let datums : List Asset :=
     if emitDatums then
       (List.range n).zip keys |>.map fun ik =>
-        let stop := index + (if ik.1 + 1 == n then mis.width else 0)
+        let stop := max index d.last + (if ik.1 + 1 == n then mis.width else 0)
         Asset.datum s!"sd-{name}-{d.ndatum + ik.1 + 1}"
           (s!"sr-{name}-{ik.2}" ++ (if mis.unknown then "-x" else "")) mis.desc d.last stop mis.seq
     else []
